@@ -183,6 +183,7 @@ def run_property(prop, tier, a):
     functions = []
     assumed = []
     notes = set()
+    callees = set()
     # ---- exhaustively checked tables (complete proofs over finite domains)
     n_tab = 0
     for tm in list(C.TABLES.values()) + list(C.DICTS.values()):
@@ -206,12 +207,44 @@ def run_property(prop, tier, a):
         functions.append(t)
         for ea in enum_space(ct):
             units.append((t, ea))
-    opts = {'cvc5': True, 'rlimit': int(os.environ.get('PYVC_RLIMIT', '60000000'))}
+    opts = {'cvc5': True, 'rlimit': int(os.environ.get('PYVC_RLIMIT', '60000000')), 'prop': prop}
     if tier == 'thorough':
         opts['rlimit'] = int(os.environ.get('PYVC_RLIMIT', '200000000'))
-    results = run_units(units, opts, verbose=a.verbose) if units else []
+    # bounded stand-ins for declared gaps of these functions (never counted as proved)
+    bjobs = []
+    for t in targets:
+        ct = C.BY_NAME[t]
+        if ct.assumed or ct.no_verify:
+            continue
+        for gi, gap in enumerate(ct.gaps):
+            cl_props = set()
+            for name, fn, pr in ct.ensures:
+                if name in gap['clauses']:
+                    cl_props.update(pr)
+            if prop in cl_props:
+                bjobs.append(('bounded', (t, gi, seed, tier)))
+    results = run_units(units, opts, verbose=a.verbose, extra_jobs=bjobs) if (units or bjobs) else []
     relevant = 0
+    bounded_cov = []
     for r in results:
+        if r.get('kind') == 'bounded':
+            bounded_cov.append({k: r[k] for k in ('target', 'gap', 'gen', 'clauses', 'evaluations',
+                                                  'distinct_nontrivial', 'wall_s', 'samples')})
+            for fl in r.get('failures', []):
+                rec = {'name': '%s/bounded:%s' % (r['target'], fl['clause']), 'kind': 'ensures',
+                       'clause': fl['clause'], 'status': 'sat', 'model_args': fl['args'],
+                       'replay': {'status': 'reproduced', 'observed': fl['observed']}, 'line': None,
+                       'solver': 'native-bounded'}
+                unit = {'target': r['target'], 'enum': {}, 'file': None}
+                key = ob_key(rec, unit)
+                kf = [f for f in known.get('findings', []) if finding_matches(f, prop, key, rec)]
+                if kf:
+                    known_hits.append((kf[0], key, rec))
+                else:
+                    path = write_replay(prop, unit, rec, 'bounded native check of the contract clause failed on the real function')
+                    violations.append((key, rec, path, ''))
+                break
+            continue
         if r.get('crash'):
             errors.append('crash in %s %s: %s' % (r.get('target'), r.get('enum'), r['crash']))
             sys.stderr.write(r.get('traceback', ''))
@@ -223,6 +256,8 @@ def run_property(prop, tier, a):
                 errors.append('%s %s: %s' % (r['target'], r.get('enum'), e))
         for n in r.get('notes', []):
             notes.add('%s: %s' % (r['target'].split('.')[-1], n))
+        for cal in r.get('callees', []):
+            callees.add(cal)
         for rec in r['obligations']:
             if rec['kind'] == 'ensures' and (not rec.get('props') or prop not in rec['props']):
                 continue
@@ -330,6 +365,11 @@ def run_property(prop, tier, a):
         'havoc_notes': sorted(notes)[:40],
         'extraction': 'function bodies re-parsed from %s on this run with ast; docstrings/comments dropped; back-end bindings read from the imported module (MPMATH_NOGMPY=1)' % REPO,
         'explanation': P.get('explanation', ''),
+        'bounded': bounded_cov,
+        'callee_contracts_relied_on': [
+            '%s (%s)' % (cal, 'assumed leaf' if C.BY_NAME[cal].assumed else
+                         'proved under %s' % '/'.join(C.BY_NAME[cal].all_props))
+            for cal in sorted(callees)],
     }
     cov.update(P.get('coverage_extra', {}))
     for k, v in extra_cov.items():
